@@ -38,3 +38,11 @@ From Ahb Require Import Gen.Gen_pool Proofs.C17_gen.
 Theorem C17_value_pool_validation_is_the_regenerated_table : forallb pool_row_ok pool_rows = true /\ length pool_rows = 1071.
 Proof. exact (conj pool_rows_ok pool_rows_complete). Qed.
 Print Assumptions C17_value_pool_validation_is_the_regenerated_table.
+
+(* ---- the judgement does not look at the meanings of the entries (an empty description included): same qualifiers and expressions entry by entry =>
+   same offered qualifiers in the same order, same status, format flag and hint for every entered input; errors alike. *)
+From Ahb Require Import Proofs.C17_meaning.
+Theorem C17_judgement_ignores_the_meanings : forall nx ev d p1 p2 input req, same_entries nx p1 p2 ->
+  same_result (validate_valuepool nx ev d p1 input req) (validate_valuepool nx ev d p2 input req).
+Proof. exact judgement_ignores_meanings. Qed.
+Print Assumptions C17_judgement_ignores_the_meanings.
